@@ -154,6 +154,13 @@ def run_shard(prop, part_name, tier, seed_value, n_examples, enum=False):
     """Executed in a worker process. Returns a JSON-able dict."""
     import importlib
     t0 = time.monotonic()
+    if not os.environ.get("VF_KEEP_STDERR"):
+        # the compiled extension prints panic messages for out-of-domain calls straight to fd 2; errors of this
+        # worker are reported through the returned dict instead
+        try:
+            os.dup2(os.open(os.devnull, os.O_WRONLY), 2)
+        except OSError:
+            pass
     out = {"part": part_name, "seed": seed_value, "violation": None, "error": None, "tolerated": []}
     ev = Ev()
     try:
@@ -253,17 +260,33 @@ def _run_hyp(part, tier, seed_value, n_examples, ev, out, budget):
 
 
 def _run_machine(part, tier, seed_value, n_examples, ev, out, budget):
-    from hypothesis import seed
+    """Histories: Hypothesis generates (no shrink phase - re-executing whole histories is slow and hits Hypothesis's
+    shrink cap); the failing history is then minimised by the property module's own step-wise delta debugging."""
+    from hypothesis import seed, settings, HealthCheck, Phase
     from hypothesis.stateful import run_state_machine_as_test
     sink = {}
     cls = part.machine(tier, ev, sink, budget)
     steps = getattr(cls, "STEPS", 20)
+    st = settings(max_examples=n_examples, database=None, deadline=None, derandomize=False, report_multiple_bugs=False,
+                  suppress_health_check=list(HealthCheck), phases=[Phase.generate], print_blob=False,
+                  stateful_step_count=steps)
+    detail = None
     try:
-        run_state_machine_as_test(seed(seed_value)(cls), settings=_settings(n_examples, tier, steps))
+        run_state_machine_as_test(seed(seed_value)(cls), settings=st)
     except Violation as v:
-        out["violation"] = {"case": sink.get("history"), "detail": v.detail}
+        detail = v.detail
     except Exception as e:  # noqa
         if sink.get("violation"):
-            out["violation"] = {"case": sink.get("history"), "detail": sink["violation"]}
+            detail = sink["violation"]
         else:
             raise
+    if detail is not None:
+        ev.frozen = True
+        case = sink.get("failing_case") or sink.get("history")
+        minimise = getattr(cls, "minimise", None)
+        if minimise is not None and case is not None:
+            try:
+                case, detail = minimise(case, detail)
+            except Exception:
+                pass
+        out["violation"] = {"case": case, "detail": detail}
